@@ -96,8 +96,9 @@ def gen_history(rr):
         elif k < 0.66:
             ops.append({'op': 'set_stage_variable', 'stage': rr.choice([0, 1, 2]), 'name': rr.choice(VARS), 'value': rr.choice(VALUES)})
         elif k < 0.71:
+            # (sometimes a platform the description does not have yet: setting its first variable creates it)
             ops.append({'op': 'set_platform_global_variable', 'name': rr.choice(VARS), 'value': rr.choice(VALUES),
-                        'platform': rr.choice(PLATFORMS + [None])})
+                        'platform': rr.choice(PLATFORMS + [None, 'pnew'])})
         elif k < 0.76:
             ops.append({'op': 'set_platform_stage_variable', 'stage': rr.choice([0, 1]), 'name': rr.choice(VARS),
                         'value': rr.choice(VALUES), 'platform': rr.choice(PLATFORMS + [None])})
@@ -333,7 +334,8 @@ def run_history(h, cnt):
 
     def all_pairs():
         ids = sorted(set(list(conc._component_dictionary.keys())))
-        return [(cid, p, fl) for cid in ids for p in h['doc']['platforms'] for fl in range(len(FLAGSETS))]
+        plats = list(h['doc']['platforms']) + [p for p in conc.platforms if p not in h['doc']['platforms']]
+        return [(cid, p, fl) for cid in ids for p in plats for fl in range(len(FLAGSETS))]
 
     for step, op in enumerate(h['ops']):
         k = op['op']
